@@ -642,7 +642,7 @@ func runTaintFiltered(c *core.Ctx, keep func(*Sink) bool) {
 		for _, n := range counts {
 			tot += n
 		}
-		c.Min("filtered sinks", tot, 5)
+		c.Min("filtered sinks", tot, 1)
 		return
 	}
 	c.Min("S1 SafeDetails() return sites", counts["S1"], 13)
